@@ -29,6 +29,14 @@ M = {
          "        # For everything else, we fall back to the default checking implementation\n        param.check_arg(arg, node)",
          "        # For everything else, we fall back to the default checking implementation\n        p = param\n        p.check_arg(arg, node)", None),
     ],
+    "C24": [
+        ("a keyword given as False still sets its flag", "guppylang/src/guppylang/decorator.py",
+         "    if kwargs.pop(\"control\", False):\n        flags |= UnitaryFlags.Control", "    if \"control\" in kwargs:\n        del kwargs[\"control\"]\n        flags |= UnitaryFlags.Control", "R-C24.7"),
+        ("power keyword sets the dagger flag", "guppylang/src/guppylang/decorator.py",
+         "    if kwargs.pop(\"power\", False):\n        flags |= UnitaryFlags.Power", "    if kwargs.pop(\"power\", False):\n        flags |= UnitaryFlags.Dagger", "R-C24.7"),
+        ("benign: keyword popped into a local first", "guppylang/src/guppylang/decorator.py",
+         "    if kwargs.pop(\"power\", False):\n        flags |= UnitaryFlags.Power", "    want_power = kwargs.pop(\"power\", False)\n    if want_power:\n        flags |= UnitaryFlags.Power", None),
+    ],
     "C01": [
         ("return variables appended after the predecessor's row", I + "compiler/cfg_compiler.py",
          "        pred.sig = Signature(pred.sig.input_row, [[*return_vars, *out_row]])", "        pred.sig = Signature(pred.sig.input_row, [[*out_row, *return_vars]])", "R-C01.4"),
